@@ -24,7 +24,7 @@ TAG_SWARM = "C18/swarm"
 
 TIERS = {
     "quick": dict(enum_scenarios=12, stdio_sites=6, swarm=400, real_lli=12, crash=120),
-    "thorough": dict(enum_scenarios=120, stdio_sites=40, swarm=80000, real_lli=300, crash=8000),
+    "thorough": dict(enum_scenarios=120, stdio_sites=40, swarm=80000, real_lli=300, crash=8000, real_clang=150),
 }
 
 ESC = b"\x1b"
@@ -195,7 +195,7 @@ def make_scenario(rng, sub=None, input_kind=None, force=None):
                 elif cfg_variant == "missing":
                     sc["config_ok"] = False
             sc["config_variant"] = cfg_variant
-            if sub == "build" and opt("dash_o", 0.2):
+            if sub == "build" and force.get("dash_o", True) and opt("dash_o", 0.2):
                 sc["opts"] += ["-o", "custom.bin"]
                 sc["dash_o"] = "custom.bin"
     # backend script
@@ -249,7 +249,7 @@ def expected_output_path(sc):
 
 
 # ---------------------------------------------------------------- running --
-def exec_scenario(sc, wd, plan=None, keep=False, real_lli=False, restart=False):
+def exec_scenario(sc, wd, plan=None, keep=False, real_lli=False, restart=False, real_clang=False):
     if restart:
         # a restart after a crash: the directory is left exactly as the dead
         # process left it (only the simulator's own files are reset)
@@ -275,6 +275,8 @@ def exec_scenario(sc, wd, plan=None, keep=False, real_lli=False, restart=False):
     for name in sorted(set(sc["stubs"])):
         if real_lli and name == "lli":
             os.symlink("/usr/bin/lli", os.path.join(bindir, name))
+        elif real_clang and name == "clang":
+            os.symlink("/usr/bin/clang", os.path.join(bindir, name))
         else:
             shutil.copy(STUB, os.path.join(bindir, name))
     script = dict(sc["script"])
@@ -916,6 +918,43 @@ def _real_lli_job(args):
     return {"violations": viol, "runs": 2}
 
 
+def _real_clang_job(args):
+    """End to end with the real clang: `penne build` must leave an executable
+    that behaves like the same program under `penne run` with the real lli."""
+    seed, i = args
+    rng = rng_for(seed, "C18/real_clang", i)
+    force = {"silent": False, "verbose": False, "cell": (0, 0, 0), "color": "never", "arrows": "ascii", "script": {"read": "all", "exit": 0},
+             "order": "parent_first", "backend_args": False, "link_args": False, "config": "none", "wasm": False, "dash_o": False,
+             "out_dir": rng.choice(["absent", "fresh"])}
+    kind = rng.choice(["valid_single", "valid_multi"])
+    sc = make_scenario(rng, "build", kind, force)
+    sc["name"] = "real_clang%d" % i
+    root = os.path.join(work_root(), "C18", "c%d" % i)
+    viol = []
+    built = exec_scenario(sc, os.path.join(root, "build"), real_clang=True, keep=True)
+    exe = os.path.join(root, "build", expected_output_path(sc))
+    if built["rc"] != 0 or not os.path.isfile(exe):
+        viol.append({"class": "real_clang_failed", "detail": "%s, executable %s: %s" % (built["status"], "present" if os.path.isfile(exe) else "missing", built["err"].decode(errors="replace")[-300:]),
+                     "scenario": sc_json(sc), "plan": [], "fault": "none"})
+    else:
+        r = run_proc([exe], os.path.join(root, "build"), base_env())
+        sc2 = dict(sc)
+        sc2["sub"] = "run"
+        sc2["opts"] = [o for o in sc["opts"]]
+        sc2["stubs"] = ["lli"]
+        sc2["backend_id"] = "lli"
+        sc2["env"] = {k: v for k, v in sc["env"].items() if not k.startswith("PENNE_")}
+        ran = exec_scenario(sc2, os.path.join(root, "run"), real_lli=True)
+        m = re.search(rb'Running "lli" "-"\.\.\.\n\n(.*)Output: (\d+)\nDone\.\n$', ran["out"], re.S)
+        if not m:
+            viol.append({"class": "real_lli_failed", "detail": "%s %r" % (ran["status"], ran["out"][-200:]), "scenario": sc_json(sc), "plan": [], "fault": "none"})
+        elif int(m.group(2)) != r.rc or m.group(1) != r.out:
+            viol.append({"class": "built_executable_differs", "detail": "executable: exit %d, %r; lli: Output %s, %r" % (r.rc, r.out[-100:], m.group(2).decode(), m.group(1)[-100:]),
+                         "scenario": sc_json(sc), "plan": [], "fault": "none"})
+    shutil.rmtree(root, ignore_errors=True)
+    return {"violations": viol, "runs": 3}
+
+
 # ----------------------------------------------------------- minimisation --
 def minimise(v):
     """Drop plan entries, then options, while the same class persists."""
@@ -1065,6 +1104,11 @@ def run(tier, seed):
         runs += res["runs"]
         lli_runs += 1
         raw.extend(res["violations"])
+    clang_runs = 0
+    for res in parallel_map(_real_clang_job, [(seed, i) for i in range(cfg.get("real_clang", 8))]):
+        runs += res["runs"]
+        clang_runs += 1
+        raw.extend(res["violations"])
     per_class = {}
     jobs = []
     for v in raw:
@@ -1095,6 +1139,7 @@ def run(tier, seed):
         "swarm_runs": swarm_done,
         "crash_restart_runs": crash_done,
         "real_lli_cross_checks": lli_runs,
+        "real_clang_end_to_end_builds": clang_runs,
         "fault_kinds_configured": configured,
         "fault_kinds_fired": fired,
         "distinct_syscall_traces": len(traces),
